@@ -54,10 +54,10 @@ theorem fifo (secure : Bool) (port : Nat) (servers : List Server) (reqs : List R
   simp
 
 /-- … and the entry carries that request: an entry with a `reply` key `k` holds exactly the k-th queued request
-(method, path, body); the first hop of a history with key `k` was drawn by the k-th request's path -/
+(method, path, body, query arguments); the first hop of a history with key `k` was drawn by the k-th request's path -/
 theorem entry_carries_request (secure : Bool) (port : Nat) (servers : List Server) (reqs : List Req) (sched : List Bool) :
     ∀ e ∈ (after secure port servers reqs sched).entries,
-      (∀ k, e.tag = some k → reqs[k]? = some ⟨e.method, e.path, e.rbody⟩) ∧
+      (∀ k, e.tag = some k → reqs[k]? = some ⟨e.method, e.path, e.rbody, e.rqargs⟩) ∧
       (∀ h, e.redirects.head? = some h → ∀ k, h.tag = some k → ∃ r, reqs[k]? = some r ∧ r.path = h.path) :=
   (inv_run reqs servers sched _ (inv_init secure port servers reqs)).eok
 
@@ -108,11 +108,64 @@ theorem refused_redirect_is_reported (servers : List Server) (s : St) (rp : Resp
   simp only [handle, hr, hl, hs, hi, ↓reduceIte, finish]
   simp
 
+/-- C19 redirects are followed TRANSPARENTLY: when a redirect is followed, the only thing that can appear on the wire is ONE
+request whose target is exactly the Location's path and the Location's query arguments (none of the redirected request's own
+arguments), sent to the Location's port and scheme, with the same method and no body — and that is also the request the
+client now holds -/
+theorem redirect_hop_is_location (servers : List Server) (s : St) (rp : Resp) (l : Loc)
+    (hr : isRedirect rp.status = true) (hl : rp.loc = some l) (hsec : (s.secure && !l.secure) = false) :
+    let s' := handle servers s rp
+    s'.cur = ⟨s.cur.method, l.path, [], l.query⟩ ∧
+    (s'.wire = s.wire ∨
+      s'.wire = s.wire ++ [⟨l.port, l.secure, s.cur.method, targetOf l.path l.query, []⟩]) := by
+  have hget : ∀ m : Bytes, (if (m == lit "GET") = true then ([] : Bytes) else []) = [] := by intro m; split <;> rfl
+  by_cases hd : (l.port != s.port || l.secure != s.secure) = true
+  · simp only [handle, hr, hl, ↓reduceIte, hd, hsec, Bool.false_eq_true, transmit]
+    split
+    · split <;> simp [hget]
+    · simp
+  · have hd' : (l.port != s.port || l.secure != s.secure) = false := by simpa using hd
+    have hp : l.port = s.port := by
+      simp only [Bool.or_eq_false_iff, bne_eq_false_iff_eq] at hd'; exact hd'.1
+    have hs : l.secure = s.secure := by
+      simp only [Bool.or_eq_false_iff, bne_eq_false_iff_eq] at hd'; exact hd'.2
+    simp only [handle, hr, hl, ↓reduceIte, hd', Bool.false_eq_true, transmit]
+    split
+    · split <;> simp [hget, hp, hs]
+    · simp
+
+/-- C19 bodiless responses (to HEAD, and 1xx / 204 / 304) are complete at the blank line whatever Content-Length they
+carry: once such a response (not announcing chunked coding, not a redirect) is in, the request gets its entry — with an
+empty body and that status — and the client stops waiting, so the queue moves on -/
+theorem bodiless_response_completes (servers : List Server) (s : St) (rp : Resp)
+    (hw : s.waited = true) (hp : s.pending = some rp) (hb : bodiless s.cur.method rp.status = true)
+    (hf : (rp.framing == 1) = false) (hr : isRedirect rp.status = false) :
+    let s' := serviceResponse servers true s
+    s'.waited = false ∧ s'.outcome = s.outcome ∧
+    ∃ e, s'.entries = s.entries ++ [e] ∧ e.body = [] ∧ e.status = some rp.status ∧ e.errored = false := by
+  simp [serviceResponse, hw, hp, hb, hf, handle, hr, finish]
+
+/-- C19-K2 witness (known finding, replayed on the implementation): a bodiless response that announces
+`Transfer-Encoding: chunked` (legal for HEAD / 304) is waited for forever; the request behind it is never sent -/
+theorem chunked_bodiless_sticks :
+    let servers : List Server := [⟨8101, [⟨200, none, lit "entity", 1, false⟩]⟩]
+    let s := after false 8101 servers [⟨lit "HEAD", lit "/a", [], []⟩, ⟨lit "GET", lit "/b", [], []⟩] [true, true, true, true]
+    s.outcome = .stuck ∧ s.waited = true ∧ s.entries = [] ∧ s.queue.length = 1 := by
+  decide
+
+/-- the redirected request's own query arguments do not travel with the hop (test on a concrete world) -/
+theorem redirect_drops_old_args_witness :
+    let servers : List Server := [⟨8101, [⟨307, some ⟨false, 8101, lit "/landing", [(lit "name", lit "fame")]⟩, [], 0, false⟩]⟩]
+    let s := after false 8101 servers [⟨lit "GET", lit "/start", [], [(lit "token", lit "abc"), (lit "page", lit "2")]⟩] [true, true, true]
+    s.wire.map (·.path) = [lit "/start?token=abc&page=2", lit "/landing?name=fame"] ∧
+      s.entries.map (·.rqargs) = [[(lit "name", lit "fame")]] := by
+  decide
+
 /-- the refusal does happen (test on a concrete world): https client, server answers 302 → http://…:8102; the second
 queued request is still served on the https connection afterwards -/
 theorem refusal_witness :
-    let servers : List Server := [⟨8101, [⟨302, some ⟨false, 8102, lit "/r"⟩, [], 0, false⟩, ⟨200, none, lit "ok", 0, false⟩]⟩, ⟨8102, []⟩]
-    let s := after true 8101 servers [⟨lit "GET", lit "/a", []⟩, ⟨lit "GET", lit "/b", []⟩] [true, true, true]
+    let servers : List Server := [⟨8101, [⟨302, some ⟨false, 8102, lit "/r", []⟩, [], 0, false⟩, ⟨200, none, lit "ok", 0, false⟩]⟩, ⟨8102, []⟩]
+    let s := after true 8101 servers [⟨lit "GET", lit "/a", [], []⟩, ⟨lit "GET", lit "/b", [], []⟩] [true, true, true]
     s.outcome = .running ∧ s.waited = false ∧ s.wire.map (·.port) = [8101, 8101] ∧
       s.entries.map (·.errored) = [true, false] ∧ s.entries.map origin = [some 0, some 1] ∧
       (s.entries.map (fun e => e.redirects.map (·.status))) = [[302], []] := by
@@ -122,7 +175,7 @@ theorem refusal_witness :
 never completed; the request and everything behind it stay unanswered -/
 theorem truncated_response_sticks :
     let servers : List Server := [⟨8101, [⟨200, none, lit "one", 3, false⟩]⟩]
-    let s := after false 8101 servers [⟨lit "GET", lit "/a", []⟩, ⟨lit "GET", lit "/b", []⟩] [true, true, true, true, true]
+    let s := after false 8101 servers [⟨lit "GET", lit "/a", [], []⟩, ⟨lit "GET", lit "/b", [], []⟩] [true, true, true, true, true]
     s.outcome = .stuck ∧ s.waited = true ∧ s.entries = [] ∧ s.queue.length = 1 := by
   decide
 
@@ -130,7 +183,7 @@ theorem truncated_response_sticks :
 with an errored entry each, in order, instead of hanging -/
 theorem closed_connection_yields_error_entries :
     let servers : List Server := [⟨8101, [⟨200, none, lit "one", 0, true⟩]⟩]
-    let s := after false 8101 servers [⟨lit "GET", lit "/a", []⟩, ⟨lit "GET", lit "/b", []⟩, ⟨lit "GET", lit "/c", []⟩] [true, true, true, true]
+    let s := after false 8101 servers [⟨lit "GET", lit "/a", [], []⟩, ⟨lit "GET", lit "/b", [], []⟩, ⟨lit "GET", lit "/c", [], []⟩] [true, true, true, true]
     s.waited = false ∧ s.entries.map (·.errored) = [false, true, true] ∧ s.entries.map origin = [some 0, some 1, some 2] := by
   decide
 
